@@ -1905,7 +1905,9 @@ func (p *Parser) parseExpression(prec OpPrec) IExpr {
 	case AsyncToken:
 		async := p.data
 		p.next()
-		left = p.parseAsyncExpression(prec, async)
+		left = p.parseAsyncExpression(prec, async) // includes what follows the expression: not parsed for a suffix a second time as if it were a primary expression
+		p.exprLevel--
+		return left
 	case ClassToken:
 		prevIn := p.in
 		p.in = true
